@@ -806,8 +806,15 @@ func r068(c *Ctx, r *R) {
 		case isConst(a[3], remoteK):
 			sawRemote = true
 			ok := false
-			for _, l := range phiLeaves(a[2]) {
-				if call, _ := originCall(l); call != nil && nameMatches(callName(call.Common()), ModPath+".peersSubtract") {
+			var remoteLeaves []ssa.Value
+			for _, lf := range valueLeavesDeep(a[2], ci.Block()) { // also through a helper that computes the two sets
+				remoteLeaves = append(remoteLeaves, lf.Val)
+				for _, via := range lf.Via { // the calls the value was returned through (peersSubtract itself may be one)
+					remoteLeaves = append(remoteLeaves, via)
+				}
+			}
+			for _, l := range remoteLeaves {
+				if call, _ := originCallLocal(l); call != nil && nameMatches(callName(call.Common()), ModPath+".peersSubtract") {
 					// members minus the allocated peers
 					fl, _ := fieldLoad(call.Common().Args[1])
 					if fl != nil && fl.Name() == "Allocations" {
